@@ -726,8 +726,9 @@ class Body:
                     b = next_sig(toks, a)
                     if toks[b].k == 'id':
                         # Class::dataMember (only meaningful inside sizeof)  ->  ((Class*)0)->member
-                        if toks[b].t in self.ctx.get('all_members', {}).get(t.t, {}):
-                            out.append(T('id', '((%s*)0)->%s' % (t.t, toks[b].t)))
+                        cn_ = self.ctx['typemap'].get(t.t, t.t)
+                        if toks[b].t in self.ctx.get('all_members', {}).get(cn_, self.ctx.get('all_members', {}).get(t.t, {})):
+                            out.append(T('id', '((%s*)0)->%s' % (cn_, toks[b].t)))
                             i = b + 1
                             self.fire('R12m')
                             continue
@@ -915,10 +916,24 @@ class Body:
         if words == 'auto':
             autos = ctx['fn'].get('autos', {})
             if name not in autos:
-                raise ExtractionBreak('R10: no type binding for `auto %s` in %s' % (name, ctx['fn']['cname']))
-            cty = autos[name]
-            self.fire('R10')
-            ctx['auto_checks'].append((name, cty))
+                # R10 fallback: no binding in the unit file -> let the C compiler deduce it:  auto x = e;  ->  __typeof__(e) x = e;
+                if toks[after].t != '=' or isref:
+                    raise ExtractionBreak('R10: no type binding for `auto %s` in %s' % (name, ctx['fn']['cname']))
+                e = after; d = 0
+                while True:
+                    e += 1
+                    y = toks[e]
+                    if y.k == 'op':
+                        if y.t in OPEN: d += 1
+                        elif y.t in CLOSE: d -= 1
+                        elif y.t in (';', ',') and d == 0: break
+                init = untok(strip_ws(toks[after + 1:e]))
+                cty = '__typeof__(%s)' % init
+                self.fire('R10typeof')
+            else:
+                cty = autos[name]
+                self.fire('R10')
+                ctx['auto_checks'].append((name, cty))
         else:
             try:
                 cty, r2 = map_type(tstr2, tm)
@@ -950,10 +965,14 @@ class Body:
             return s + 3
         if not ptr and tstr2.startswith('const ') and not decl_c.startswith('const '):
             decl_c = 'const ' + decl_c
-        new = toks[:s] + [T('id', static + decl_c), T('ws', ' '), T('id', '@@' + name)] + toks[name_i + 1:]
+        if decl_c.startswith('__typeof__('):
+            dtoks = ([T('id', 'static'), T('ws', ' ')] if static else []) + tokenize(decl_c)
+        else:
+            dtoks = [T('id', static + decl_c)]
+        new = toks[:s] + dtoks + [T('ws', ' '), T('id', '@@' + name)] + toks[name_i + 1:]
         self.toks = new
         ctx['locals'][name] = cty.replace('const ', '') if not ptr else cty
-        return s + 3
+        return s + len(dtoks) + 2
 
     # ---- R9 range-for over a view
     def r_rangefor(self):
@@ -1215,6 +1234,29 @@ class Body:
                         newargs.append(tokenize('(') + a + tokenize(').data, (') + a + tokenize(').size * sizeof(*(') + a + tokenize(').data)'))
                     else:
                         newargs.append(a)
+                if argmode and 'objtmp' in argmode:
+                    # R17: value written through `const T&` -- materialise it in a named local of a new block
+                    semi = next_sig(toks, e)
+                    pv = prev_sig(toks, start)
+                    if semi is None or toks[semi].t != ';' or not (pv is None or toks[pv].t in (';', '{', '}', ')') or toks[pv].t.startswith('if (op2_exc)')):
+                        raise ExtractionBreak('R17: write of a temporary must be an expression statement (%s)' % ctx['fn']['cname'])
+                    ai = argmode.index('objtmp')
+                    blk = [T('op', '{'), T('ws', ' '), T('id', '__typeof__'), T('op', '(')] + args[ai] + [T('op', ')'), T('ws', ' '), T('id', 'op2_obj'), T('ws', ' '), T('op', '='), T('ws', ' ')] + args[ai] + [T('op', ';'), T('ws', ' ')]
+                    call = [T('id', '@@CALL@@' + fn), T('op', '(')]
+                    first = True
+                    if rarg is not None:
+                        call += rarg; first = False
+                    for aj, a in enumerate(args):
+                        if not first: call += [T('op', ','), T('ws', ' ')]
+                        first = False
+                        if aj == ai: call += tokenize('&op2_obj, sizeof(op2_obj)')
+                        else: call += a
+                    call += [T('op', ')'), T('op', ';'), T('ws', ' '), T('op', '}')]
+                    self.toks = toks[:start] + blk + call + toks[semi + 1:]
+                    self.fire('R17')
+                    if spec.get('throws'): ctx['throwing_sites'] = ctx.get('throwing_sites', 0) + 1
+                    changed = True
+                    break
                 call = [T('id', '@@CALL@@' + fn), T('op', '(')]
                 for ai, a in enumerate(newargs):
                     if ai: call += [T('op', ','), T('ws', ' ')]
@@ -1606,7 +1648,8 @@ def extract_function(fn, unit, repo, filecache, contracts):
         init_text = '\n'.join(lines) + '\n'
         body.fire('R15', len(lines))
     # views
-    views = list(unit.get('views', [])) + list(fn.get('views', []))
+    views = []
+    late_views = list(unit.get('views', [])) + list(fn.get('views', []))     # explicit (nested-path) views see the text after the automatic ones
     def _vk(ct):
         ct = ct.replace('const ', '').strip()
         if ct in unit.get('vecptr_types', ()): return 'vecptr'
@@ -1623,7 +1666,7 @@ def extract_function(fn, unit, repo, filecache, contracts):
     for mn, mt in (ctx['members'] or {}).items():
         k_ = _vk(mt)
         if k_ and cls and not static: views.append((r'self->%s' % mn, k_))
-    text = rewrite_views(text, views)
+    text = rewrite_views(text, views + late_views)
     if '@@' in text:
         raise ExtractionBreak('unresolved marker in %s' % fn['cname'])
     for lname, lt in ctx['locals'].items():
